@@ -600,6 +600,7 @@ type Exec struct {
 	nameCount map[string]int
 	nowVals  []*Val
 	insertOnlyN int
+	loopOrdMax  int // highest loop ordinal met while executing the function under verification
 	tickerRefs []string // tickers created so far by the function under verification
 	lockCheck bool
 	ownsCheckOn bool
@@ -623,7 +624,7 @@ func (eng *Engine) newExec(fi *FuncInfo, c *Contract, prop string) *Exec {
 	ex := &Exec{eng: eng, fn: fi, contract: c, prop: prop, init: map[types.Object]*Val{}, lets: map[string]*Val{}, hiddenVars: map[string]types.Object{},
 		notes: map[string]bool{}, assumptions: map[string]bool{}, dropped: map[string]int{}, unknown: map[string]int{}, modelUsed: map[string]int{},
 		usedContracts: map[string]int{}, assumedUsed: map[string]int{}, callN: map[string]int{}, callSites: map[string]map[token.Pos]int{}, nameCount: map[string]int{}, guardN: map[string]int{},
-		safetyKinds: map[string]bool{"index": true, "slice-bounds": true, "div-by-zero": true, "make-size": true, "make-cap": true, "make-chan-size": true, "type-assert": true, "panic": true, "ticker-interval-positive": true, "close-of-closed-channel": true}}
+		safetyKinds: map[string]bool{"index": true, "slice-bounds": true, "div-by-zero": true, "make-size": true, "make-cap": true, "make-chan-size": true, "type-assert": true, "panic": true, "ticker-interval-positive": true, "close-of-closed-channel": true, "interface-compare": true}}
 	if fi != nil && fi.Pkg != nil {
 		ex.info = fi.Pkg.TypesInfo
 	}
@@ -1094,6 +1095,18 @@ func (eng *Engine) verify(c *Contract, prop string) (rep *FuncReport, err error)
 					}
 				}
 			}
+		}
+	}
+	// a `loop N` clause that names a loop the function (or fragment) does not have speaks of code that is gone
+	if ex.discovery == 0 {
+		maxLoop := 0
+		for _, cl := range c.Clauses {
+			if cl.Loop > maxLoop {
+				maxLoop = cl.Loop
+			}
+		}
+		if maxLoop > ex.loopOrdMax {
+			ex.specErrs = append(ex.specErrs, fmt.Sprintf("%s: the contract has clauses for loop %d but only %d loop(s) were found", c.Func, maxLoop, ex.loopOrdMax))
 		}
 	}
 	if len(ex.specErrs) > 0 {
